@@ -284,6 +284,7 @@ type vsrvConfig struct {
 	Sched                string // "" (default RFC 9218), "rr", "random", "rfc7540"
 	MaxConcurrentStreams uint32 // 0 = server default
 	S2CCap               int    // capacity of the server→client pipe; <=0 unlimited
+	WUReservedBit        bool   // the scripted client sets the reserved bit in every second WINDOW_UPDATE it sends
 	ExpectErrors         bool   // the script provokes connection errors on purpose
 	Handler              func(s *vsrvSession, w http.ResponseWriter, r *http.Request)
 	// Optional, nil by default (added for C10/C11; no effect on the other monitors):
@@ -303,6 +304,7 @@ type vsrvSession struct {
 	// pipe
 	c2s            []byte
 	cliClosed      bool
+	wuCount        int
 	srvClosed      bool
 	s2cLen         int
 	blockedWriters int
@@ -642,6 +644,13 @@ func (s *vsrvSession) cliSettings(ss ...h2ref.Setting) {
 }
 func (s *vsrvSession) cliSettingsAck() { s.cliWrite(h2ref.AppendSettingsAck(nil)) }
 func (s *vsrvSession) cliWindowUpdate(stream, incr uint32) {
+	if s.cfg.WUReservedBit {
+		// every second WINDOW_UPDATE carries the reserved bit of its payload set; the increment
+		// is the low 31 bits (RFC 9113 6.9), the bit means nothing
+		if s.wuCount++; s.wuCount%2 == 0 {
+			incr |= 1 << 31
+		}
+	}
 	s.cliWrite(h2ref.AppendWindowUpdate(nil, stream, incr))
 }
 func (s *vsrvSession) cliRST(stream, code uint32) {
